@@ -310,6 +310,20 @@ func (c *Ctx) implementers(iface types.Type) []*types.Named {
 			for i := 0; i < n.NumMethods(); i++ {
 				have[n.Method(i).Name()] = true
 			}
+			// methods promoted from embedded (private helper) struct types count as well
+			mset := types.NewMethodSet(types.NewPointer(n))
+			for i := 0; i < mset.Len(); i++ {
+				// ... but not those that come with an embedded interface: a struct that embeds the
+				// interface itself is a wrapper around an implementation, not one
+				if fn, ok := mset.At(i).Obj().(*types.Func); ok {
+					if sig, ok := fn.Type().(*types.Signature); ok && sig.Recv() != nil {
+						if _, isIface := sig.Recv().Type().Underlying().(*types.Interface); isIface {
+							continue
+						}
+					}
+				}
+				have[mset.At(i).Obj().Name()] = true
+			}
 			all := true
 			for m := range names {
 				if !have[m] {
